@@ -435,6 +435,7 @@ type FuncSpec struct {
 	requires     []*clause
 	ensures      []*clause
 	loops        map[int]*loopSpec
+	loopsByName  map[string]*loopSpec
 	modifies     []string
 	hasModifies  bool
 	reads        []string
@@ -501,7 +502,7 @@ func splitLabel(s string) (label, rest string) {
 
 var clauseKeywords = map[string]bool{"func": true, "property": true, "ghost": true, "requires": true, "ensures": true, "loop": true,
 	"modifies": true, "reads": true, "safety": true, "nopanic": true, "arith": true, "pure": true, "slots": true, "kinds": true, "spec": true,
-	"lemma": true, "axiom": true, "assumed": true, "cover": true, "timeout": true}
+	"lemma": true, "axiom": true, "assumed": true, "cover": true, "timeout": true, "macro": true}
 
 // parseContracts parses the //@ lines of one package.
 func (ss *SpecSet) parseContracts(pkg string, lines []specLine) {
@@ -513,6 +514,14 @@ func (ss *SpecSet) parseContracts(pkg string, lines []specLine) {
 			continue
 		}
 		first := strings.Fields(t)[0]
+		if len(joined) > 0 && (first == "ensures" || first == "assume") {
+			pf := strings.Fields(joined[len(joined)-1].text)[0]
+			pt := joined[len(joined)-1].text
+			if (pf == "slots" || pf == "kinds") && !strings.Contains(pt, " ensures ") && !strings.Contains(pt, " assume ") {
+				joined[len(joined)-1].text += " " + t
+				continue
+			}
+		}
 		if clauseKeywords[first] || len(joined) == 0 {
 			joined = append(joined, specLine{text: t, file: l.file, line: l.line})
 		} else {
@@ -520,6 +529,7 @@ func (ss *SpecSet) parseContracts(pkg string, lines []specLine) {
 		}
 	}
 	var cur *FuncSpec
+	macros := map[string]*macroDef{}
 	fail := func(l specLine, f string, a ...any) {
 		ss.errs = append(ss.errs, fmt.Sprintf("%s:%d: %s", l.file, l.line, fmt.Sprintf(f, a...)))
 	}
@@ -540,10 +550,21 @@ func (ss *SpecSet) parseContracts(pkg string, lines []specLine) {
 		fields := strings.Fields(l.text)
 		kw := fields[0]
 		rest := strings.TrimSpace(l.text[len(kw):])
+		if kw == "macro" {
+			md, err := parseMacro(rest)
+			if err != nil {
+				fail(l, "%v", err)
+			} else {
+				macros[md.name] = md
+			}
+			continue
+		}
+		l.text = expandMacros(l.text, macros)
+		rest = strings.TrimSpace(l.text[len(kw):])
 		switch kw {
 		case "func":
 			name := strings.Fields(rest)[0]
-			cur = &FuncSpec{pkg: pkg, name: name, loops: map[int]*loopSpec{}, line: l}
+			cur = &FuncSpec{pkg: pkg, name: name, loops: map[int]*loopSpec{}, loopsByName: map[string]*loopSpec{}, line: l}
 			ss.funcs[pkg+"#"+strings.NewReplacer("(", "", ")", "", "*", "").Replace(name)] = cur
 			ss.order = append(ss.order, cur)
 			continue
@@ -606,15 +627,26 @@ func (ss *SpecSet) parseContracts(pkg string, lines []specLine) {
 		case "loop":
 			var n int
 			var what string
-			if _, err := fmt.Sscanf(rest, "%d %s", &n, &what); err != nil {
-				fail(l, "loop <n> invariant|decreases <expr>")
+			lf := strings.Fields(rest)
+			if len(lf) < 3 {
+				fail(l, "loop <n|var> invariant|decreases <expr>")
 				continue
 			}
+			what = lf[1]
 			idx := strings.Index(rest, what) + len(what)
-			ls := cur.loops[n]
-			if ls == nil {
-				ls = &loopSpec{}
-				cur.loops[n] = ls
+			var ls *loopSpec
+			if _, err := fmt.Sscanf(lf[0], "%d", &n); err == nil {
+				ls = cur.loops[n]
+				if ls == nil {
+					ls = &loopSpec{}
+					cur.loops[n] = ls
+				}
+			} else {
+				ls = cur.loopsByName[lf[0]]
+				if ls == nil {
+					ls = &loopSpec{}
+					cur.loopsByName[lf[0]] = ls
+				}
 			}
 			c := mkClause(l, rest[idx:])
 			if c == nil {
@@ -779,4 +811,101 @@ func parseTypeText(s string) (*typeExpr, error) {
 		te = p.typ()
 	}()
 	return te, perr
+}
+
+type macroDef struct {
+	name   string
+	params []string
+	body   string
+}
+
+// macro name(a, b) = text
+func parseMacro(rest string) (*macroDef, error) {
+	eqi := strings.Index(rest, " = ")
+	lp := strings.Index(rest, "(")
+	rp := strings.Index(rest, ")")
+	if eqi < 0 || lp < 0 || rp < lp || rp > eqi {
+		return nil, fmt.Errorf("macro name(params) = text")
+	}
+	md := &macroDef{name: strings.TrimSpace(rest[:lp]), body: strings.TrimSpace(rest[eqi+3:])}
+	for _, p := range strings.Split(rest[lp+1:rp], ",") {
+		if p = strings.TrimSpace(p); p != "" {
+			md.params = append(md.params, p)
+		}
+	}
+	return md, nil
+}
+
+func isIdentByte(b byte) bool {
+	return b == '_' || b >= '0' && b <= '9' || b >= 'a' && b <= 'z' || b >= 'A' && b <= 'Z'
+}
+
+// expandMacros replaces name(args) by the macro body with parameters substituted (textually, whole identifiers).
+func expandMacros(text string, macros map[string]*macroDef) string {
+	for iter := 0; iter < 20; iter++ {
+		changed := false
+		for name, md := range macros {
+			for from := 0; ; {
+				i := strings.Index(text[from:], name+"(")
+				if i < 0 {
+					break
+				}
+				i += from
+				if i > 0 && (isIdentByte(text[i-1]) || text[i-1] == '.') {
+					from = i + 1
+					continue
+				}
+				// find matching paren
+				j := i + len(name) + 1
+				depth := 1
+				var args []string
+				argStart := j
+				for ; j < len(text) && depth > 0; j++ {
+					switch text[j] {
+					case '(', '[':
+						depth++
+					case ')', ']':
+						depth--
+						if depth == 0 {
+							args = append(args, strings.TrimSpace(text[argStart:j]))
+						}
+					case ',':
+						if depth == 1 {
+							args = append(args, strings.TrimSpace(text[argStart:j]))
+							argStart = j + 1
+						}
+					}
+				}
+				if depth != 0 || len(args) != len(md.params) {
+					from = i + 1
+					continue
+				}
+				body := md.body
+				for k, p := range md.params {
+					body = replaceIdent(body, p, args[k])
+				}
+				text = text[:i] + "(" + body + ")" + text[j:]
+				changed = true
+				from = i + len(body) + 2
+			}
+		}
+		if !changed {
+			break
+		}
+	}
+	return text
+}
+
+func replaceIdent(s, id, with string) string {
+	var sb strings.Builder
+	for i := 0; i < len(s); {
+		if strings.HasPrefix(s[i:], id) && (i == 0 || !isIdentByte(s[i-1])) && (i+len(id) >= len(s) || !isIdentByte(s[i+len(id)])) {
+			sb.WriteString(with)
+			i += len(id)
+			continue
+		}
+		sb.WriteByte(s[i])
+		i++
+	}
+	return sb.String()
 }
